@@ -1,6 +1,7 @@
 package main
 
 import (
+	"strings"
 	"crypto/x509"
 	"fmt"
 	"math/rand"
@@ -13,8 +14,12 @@ func init() {
 	}
 }
 
-func evalVerify(c *Ctx, prop, mode, class string, blob []byte, cert *x509.Certificate, certClass string) string {
-	o := c.Impl("p7_verify", hx(blob), hx(cert.Raw))
+func evalVerify(c *Ctx, prop, mode, class string, blob []byte, cert *x509.Certificate, certClass string, prior ...*x509.Certificate) string {
+	var ph []string
+	for _, pc := range prior {
+		ph = append(ph, hx(pc.Raw))
+	}
+	o := c.Impl("p7_verify", hx(blob), hx(cert.Raw), strings.Join(ph, ","))
 	impl := "err"
 	if o.Class != "ret" {
 		impl = o.Class
@@ -58,6 +63,11 @@ func runC04(c *Ctx) {
 	for _, s := range seeds {
 		others := otherCerts(s, rng)
 		evalVerify(c, "C04", "sound", s.name+"/original", s.blob, s.cert, "signer")
+		// the verdict for a certificate does not depend on what the same parsed object verified before
+		if twin := others["same-issuer-serial-other-key"]; twin != nil {
+			evalVerify(c, "C04", "sound", s.name+"/original-after-signer", s.blob, twin, "same-issuer-serial-other-key", s.cert)
+			evalVerify(c, "C04", "sound", s.name+"/original-after-twin", s.blob, s.cert, "signer", twin, twin)
+		}
 		for k, oc := range others {
 			evalVerify(c, "C04", "sound", s.name+"/original", s.blob, oc, k)
 		}
